@@ -152,8 +152,9 @@ class Session:
             self.log.append({"stage": "S1", "what": "dump:" + what, "op_index": at, "impl": a, "model": b})
         return py["dump"]
 
-    def one_step(self, params, t, x, stages=("S2", "S3", "S4", "S5")):
+    def one_step(self, params, t, x, stages=("S2", "S3", "S4", "S5"), extra=None):
         op = {"op": "one_step", "params": [[k, v] for k, v in params.items()], "t": t, "x": x}
+        if extra: op.update(extra)
         py = self.I.apply(op)
         ln = self.L.send(op)
         if py["ok"] != ln["ok"]:
